@@ -29,6 +29,9 @@ pub struct Observer<'a> {
     pub strictness: Strictness,
 }
 
+/// Analysis handles kept from earlier steps of a history (per root path).
+pub type Held = std::collections::BTreeMap<std::path::PathBuf, Arc<ProgramAnalysis>>;
+
 /// Replace every `Id(k, n)` / `k#n` key space `k` by an ordinal of first appearance.
 pub fn mask_key_spaces(text: &str) -> String {
     let bytes = text.as_bytes();
@@ -251,6 +254,72 @@ impl Observer<'_> {
         session.analyze(root).map_err(|error| self.analysis_error(&error))
     }
 
+    /// As [`Self::ask`]; the `*Held` queries use the handle kept for `root` in `held`, if any
+    /// (and every successful analysis may be kept for later).
+    pub fn ask_holding(&self, session: &CompilerSession, root: &Path, query: &Query, held: &mut Held, keep: bool) -> String {
+        let result = catch_unwind(AssertUnwindSafe(|| {
+            let fresh_equivalent = match query {
+                | Query::ExecuteHeld => Query::Execute,
+                | Query::CheckedProgramHeld => Query::CheckedProgram,
+                | Query::MaterializeArenaHeld => Query::MaterializeArena,
+                | other => other.clone(),
+            };
+            if fresh_equivalent != *query {
+                if let Some(handle) = held.get(root).cloned() {
+                    return self.with_handle(session, &handle, &fresh_equivalent);
+                }
+            }
+            let answer = self.ask_inner(session, root, query);
+            if keep {
+                // keeping a handle must never change the answer (the analysis may panic: C10)
+                if let Ok(Ok(analysis)) = catch_unwind(AssertUnwindSafe(|| session.analyze(root))) {
+                    held.insert(root.to_path_buf(), analysis);
+                }
+            }
+            answer
+        }));
+        match result {
+            | Ok(answer) => answer,
+            | Err(payload) => {
+                let message = zysim_common::panic_message(&*payload);
+                format!("PANIC {}", mask_key_spaces(&self.unprefix(&message)))
+            }
+        }
+    }
+
+    /// The three queries that take an analysis handle, called with `handle`.
+    fn with_handle(&self, session: &CompilerSession, handle: &ProgramAnalysis, query: &Query) -> String {
+        match query {
+            | Query::CheckedProgram => match session.checked_program(handle) {
+                | None => "none".to_string(),
+                | Some(program) => format!(
+                    "some root={} types_pre={} values={} compus={} terms={}",
+                    mask_key_spaces(&format!("{:?}", program.root)),
+                    program.statics.types_pre.len(),
+                    program.statics.values.len(),
+                    program.statics.compus.len(),
+                    program.scoped.terms.len()
+                ),
+            },
+            | Query::MaterializeArena => match session.materialize_arena(handle) {
+                | Err(error) => format!("Err {}", self.analysis_error(&error)),
+                | Ok(arena) => format!(
+                    "Ok types_pre={} kinds_pre={} values={} compus={} types_normalized={} annotations_compu={}",
+                    arena.types_pre.len(),
+                    arena.kinds_pre.len(),
+                    arena.values.len(),
+                    arena.compus.len(),
+                    arena.types_normalized.len(),
+                    arena.annotations_compu.len()
+                ),
+            },
+            | _ => match session.executable_program(handle) {
+                | Err(error) => format!("NotExecutable {}", mask_key_spaces(&error.to_string())),
+                | Ok(executable) => self.execute(executable),
+            },
+        }
+    }
+
     /// Ask `query` about `root` and render the answer.  Panics are part of the answer.
     pub fn ask(&self, session: &CompilerSession, root: &Path, query: &Query) -> String {
         let result = catch_unwind(AssertUnwindSafe(|| self.ask_inner(session, root, query)));
@@ -328,6 +397,27 @@ impl Observer<'_> {
                 },
             },
             | Query::CheckResolved => self.check_resolved(session, root),
+            // Without a kept handle: what the handle-taking API answers when the root cannot be
+            // analysed (it only uses the handle's root path, so a caller holding an older handle
+            // gets exactly this): not executable / no program / the analysis error.
+            | Query::ExecuteHeld | Query::CheckedProgramHeld | Query::MaterializeArenaHeld => {
+                match session.analyze(root) {
+                    | Ok(analysis) => self.with_handle(
+                        session,
+                        &analysis,
+                        &match query {
+                            | Query::ExecuteHeld => Query::Execute,
+                            | Query::CheckedProgramHeld => Query::CheckedProgram,
+                            | _ => Query::MaterializeArena,
+                        },
+                    ),
+                    | Err(error) => match query {
+                        | Query::ExecuteHeld => format!("NotExecutable {}", zydeco_session::ExecutableError::Materialize),
+                        | Query::CheckedProgramHeld => "none".to_string(),
+                        | _ => format!("Err {}", self.analysis_error(&error)),
+                    },
+                }
+            }
         }
     }
 
